@@ -175,29 +175,52 @@ theorem ok_static (c : Ctx) (cs : CtxSpec) (hs : cs.srcStatic = true) (hok : cs.
 
 /-! ### The latest assignment also decides COMPARISONS (not only prints) -/
 
+/-- A path without a square bracket is compared as it stands, inside counter loops too. -/
+theorem cmpPath_plain (vars : Vars) (qb : Bool) (k : Bytes) (hb : indexOf 91 k = none) : cmpPath vars qb k = some k := by
+  unfold cmpPath replaceQB
+  cases qb <;> simp [hb]
+
 /-- A name that has just become a counter compares as that integer — whatever it held before (a struct with an
     inspector of its own, a list, bytes: the sixth round's seeded change C02-r6m1 kept the old inspector). -/
-theorem cmp_after_setCounter (c : Ctx) (k : Bytes) (n : Int) (o : Op) (right : Bytes) (hk : splitDots k = [k]) :
+theorem cmp_after_setCounter (c : Ctx) (k : Bytes) (n : Int) (o : Op) (right : Bytes) (hk : splitDots k = [k])
+    (hb : indexOf 91 k = none) :
     ((c.setCounter k n).cmp k o right).1 = ((Val.int n).cmpLit o right).getD false ∧
     ((c.setCounter k n).cmp k o right).2.err = none := by
-  unfold Ctx.cmp cmpCore cmpErrCore
+  unfold Ctx.cmp
+  simp only [cmpPath_plain _ _ k hb, Option.map_some, Option.getD_some]
+  unfold cmpCore cmpErrCore
   simp only [hk, setCounter_reads]
   exact ⟨trivial, trivial⟩
 
 /-- A name that has just been given a static value compares through the static inspector on that value. -/
-theorem cmp_after_setStatic (c : Ctx) (k : Bytes) (v : Val) (o : Op) (right : Bytes) (hk : splitDots k = [k]) :
+theorem cmp_after_setStatic (c : Ctx) (k : Bytes) (v : Val) (o : Op) (right : Bytes) (hk : splitDots k = [k])
+    (hb : indexOf 91 k = none) :
     ((c.setStatic k v).cmp k o right).1 = (insCompare .static v [] o right).getD false := by
-  unfold Ctx.cmp cmpCore
+  unfold Ctx.cmp
+  simp only [cmpPath_plain _ _ k hb, Option.map_some, Option.getD_some]
+  unfold cmpCore
   simp only [hk, setStatic_reads]
 
 /-- A name that has just been given non-empty bytes compares byte-wise with them. -/
-theorem cmp_after_setBytes (c : Ctx) (k : Bytes) (b : Bytes) (o : Op) (right : Bytes) (hk : splitDots k = [k]) (hb : b ≠ []) :
+theorem cmp_after_setBytes (c : Ctx) (k : Bytes) (b : Bytes) (o : Op) (right : Bytes) (hk : splitDots k = [k])
+    (hb0 : indexOf 91 k = none) (hb : b ≠ []) :
     ((c.setBytes k b).cmp k o right).1 = ((Val.bytes b).cmpLit o right).getD false := by
-  unfold Ctx.cmp cmpCore
+  unfold Ctx.cmp
+  simp only [cmpPath_plain _ _ k hb0, Option.map_some, Option.getD_some]
+  unfold cmpCore
   simp only [hk, setBytes_reads]
   cases b with
   | nil => exact absurd rfl hb
   | cons x xs => simp
+
+/-- **Inside a counter loop the LEFT operand's square-bracket index is substituted before the comparison** (repair:
+    `{% if a[i].f > 0 %}` used to compare the literal path `a[i]`, which names nothing, and was always false): the
+    comparison of `a[i].f` is the comparison of `a.<value of i>.f`. -/
+theorem cmp_indexed_left (c : Ctx) (path p : Bytes) (o : Op) (right : Bytes) (hq : c.chQB = true)
+    (hp : replaceQB c.vars path = some p) :
+    (c.cmp path o right).1 = cmpCore c.vars p o right := by
+  unfold Ctx.cmp cmpPath
+  simp [hq, hp]
 
 /-! ### Loop bindings: the counter loop assigns its variable also when it makes no iteration -/
 
